@@ -46,6 +46,10 @@ enum Op {
     /// Serialize implementation returns an error, 1: it panics and the embedder catches the panic, 2:
     /// it fails after a flattened engine value went through) - the thread lives on
     BadContext(u8),
+    /// the backing store of the loaders changes: template `b`, which loader 1 does not have, comes
+    /// into existence there (or goes away again).  What an environment answered before - found or
+    /// not found - is not part of its contents.
+    StoreFlip,
 }
 
 fn alphabet() -> Vec<Op> {
@@ -59,7 +63,7 @@ fn alphabet() -> Vec<Op> {
         v.push(Op::Remove(n));
         v.push(Op::Render(n));
     }
-    v.extend([Op::Clear, Op::SetLoader(0), Op::SetLoader(1), Op::AddFilter, Op::RemoveFilter, Op::AddTest, Op::RemoveTest, Op::AddGlobal(1), Op::AddGlobal(2), Op::RemoveGlobal, Op::CloneEnv, Op::GetMissing, Op::BadContext(0), Op::BadContext(1), Op::BadContext(2)]);
+    v.extend([Op::Clear, Op::SetLoader(0), Op::SetLoader(1), Op::AddFilter, Op::RemoveFilter, Op::AddTest, Op::RemoveTest, Op::AddGlobal(1), Op::AddGlobal(2), Op::RemoveGlobal, Op::CloneEnv, Op::GetMissing, Op::BadContext(0), Op::BadContext(1), Op::BadContext(2), Op::StoreFlip]);
     v
 }
 
@@ -71,6 +75,8 @@ struct Model {
     /// at first request)
     owned: BTreeMap<usize, String>,
     loader: Option<usize>,
+    /// whether the loaders' backing store currently holds the late template (loader 1's `b`)
+    store: bool,
     filter: bool,
     test: bool,
     global: Option<i64>,
@@ -84,7 +90,7 @@ impl Model {
         if let Some(s) = self.owned.get(&name) {
             return Some(s.clone());
         }
-        self.loader.and_then(|l| LOADERS[l][name]).map(|s| s.to_string())
+        self.loader.and_then(|l| loader_source(l, name, self.store)).map(|s| s.to_string())
     }
     fn compiles(src: &str) -> bool {
         src != SOURCES[2]
@@ -94,7 +100,7 @@ impl Model {
         if self.borrowed.contains_key(&name) || self.owned.contains_key(&name) {
             return;
         }
-        if let Some(src) = self.loader.and_then(|l| LOADERS[l][name]) {
+        if let Some(src) = self.loader.and_then(|l| loader_source(l, name, self.store)) {
             if Self::compiles(src) {
                 self.owned.insert(name, src.to_string());
             }
@@ -130,6 +136,7 @@ impl Model {
             Op::AddGlobal(v) => self.global = Some(v),
             Op::RemoveGlobal => self.global = None,
             Op::CloneEnv | Op::GetMissing | Op::BadContext(_) => {}
+            Op::StoreFlip => self.store = !self.store,
             Op::Render(n) => {
                 self.request(n);
                 // templates that load `b` when rendered
@@ -161,11 +168,34 @@ fn base_env() -> Environment<'static> {
     let mut env = Environment::new();
     env.set_debug(true);
     env.add_function("render_other", render_other);
+    env.add_global("__store", Value::from_object(Store(Default::default())));
     env
 }
 
-fn loader_fn(l: usize) -> impl Fn(&str) -> Result<Option<String>, minijinja::Error> + Send + Sync + 'static {
-    move |name| Ok(NAMES.iter().position(|n| *n == name).and_then(|i| LOADERS[l][i]).map(|s| s.to_string()))
+/// what loader `l` serves for a name, given the state of the backing store
+fn loader_source(l: usize, name: usize, store: bool) -> Option<&'static str> {
+    match LOADERS[l][name] {
+        Some(s) => Some(s),
+        None if store => Some("L2b-late"),
+        None => None,
+    }
+}
+
+/// the backing store travels with the environment (as a global holding the shared flag), so that the
+/// loaders of an environment and of its clones read the same store
+#[derive(Debug)]
+struct Store(std::sync::Arc<std::sync::atomic::AtomicBool>);
+impl minijinja::value::Object for Store {}
+
+fn store_of(env: &Environment<'static>) -> std::sync::Arc<std::sync::atomic::AtomicBool> {
+    env.globals()
+        .find(|(k, _)| *k == "__store")
+        .and_then(|(_, v)| v.downcast_object_ref::<Store>().map(|s| s.0.clone()))
+        .expect("every environment of this check carries its store")
+}
+
+fn loader_fn(l: usize, store: std::sync::Arc<std::sync::atomic::AtomicBool>) -> impl Fn(&str) -> Result<Option<String>, minijinja::Error> + Send + Sync + 'static {
+    move |name| Ok(NAMES.iter().position(|n| *n == name).and_then(|i| loader_source(l, i, store.load(std::sync::atomic::Ordering::SeqCst))).map(|s| s.to_string()))
 }
 
 fn apply_real(env: &mut Environment<'static>, op: Op) -> Result<(), String> {
@@ -181,7 +211,8 @@ fn apply_real(env: &mut Environment<'static>, op: Op) -> Result<(), String> {
             Ok(())
         }
         Op::SetLoader(l) => {
-            env.set_loader(loader_fn(l));
+            let store = store_of(env);
+            env.set_loader(loader_fn(l, store));
             Ok(())
         }
         Op::AddFilter => {
@@ -218,6 +249,10 @@ fn apply_real(env: &mut Environment<'static>, op: Op) -> Result<(), String> {
         }
         Op::GetMissing => {
             let _ = env.get_template("zz");
+            Ok(())
+        }
+        Op::StoreFlip => {
+            store_of(env).fetch_xor(true, std::sync::atomic::Ordering::SeqCst);
             Ok(())
         }
         Op::BadContext(kind) => {
@@ -281,8 +316,10 @@ fn observe(env: &Environment<'static>) -> Result<Obs, String> {
 
 fn fresh_from(model: &Model) -> Environment<'static> {
     let mut env = base_env();
+    store_of(&env).store(model.store, std::sync::atomic::Ordering::SeqCst);
     if let Some(l) = model.loader {
-        env.set_loader(loader_fn(l));
+        let store = store_of(&env);
+        env.set_loader(loader_fn(l, store));
     }
     for (n, s) in &model.borrowed {
         env.add_template(NAMES[*n], SOURCES[*s]).expect("model only holds compiling templates");
@@ -326,6 +363,7 @@ fn op_class(op: Op) -> &'static str {
         Op::Render(_) => "render",
         Op::GetMissing => "get_missing",
         Op::BadContext(_) => "bad_context",
+        Op::StoreFlip => "store_flip",
     }
 }
 
